@@ -186,6 +186,8 @@ class LoopHooks(Hooks):
                 env[nme] = z3.FreshConst(srt, f"{nme}_h{ordinal}")
             else:
                 raise Unsupported(f"cannot havoc {nme}")
+        for key, fn_ in spec.get("havoc_state", {}).items():      # ghost / model state kept in eng.state
+            eng.state[key] = fn_(eng.state.get(key))
         j = fresh_int(f"it{ordinal}_")
         if eng.branch(z3.Bool(f"preserve!{label}!{id(node) % 997}")):
             # preserve: arbitrary iteration j
